@@ -52,6 +52,7 @@ class Block:
         self.ret = None
         self.clauses = ""
         self.loops = {}
+        self.closures = {}   # k -> [ret decl, clause text]  (//@closure)
         self.hints = []
         self.first = ""
         self.subst = []
@@ -132,6 +133,11 @@ def parse_template(text):
             elif cmd == "loop":
                 mode = ("loop", int(arg))
                 cur.loops[int(arg)] = ""
+            elif cmd == "closure":
+                # //@closure k <ret>: <Type>   contract of the k-th closure of the function (source order)
+                k, _, rdecl = arg.partition(" ")
+                mode = ("closure", int(k))
+                cur.closures[int(k)] = [rdecl.strip(), ""]
             elif cmd == "hint":
                 m = re.match(r'(before|after)\s+"((?:[^"\\]|\\.)*)"\s*(?:#(\d+))?', arg)
                 if not m:
@@ -168,6 +174,8 @@ def parse_template(text):
             cur.clauses += line + "\n"
         elif mode[0] == "loop":
             cur.loops[mode[1]] += line + "\n"
+        elif mode[0] == "closure":
+            cur.closures[mode[1]][1] += line + "\n"
         elif mode[0] == "hint":
             cur.hints[-1][2] += line + "\n"
         elif mode[0] == "first":
@@ -499,6 +507,7 @@ def generate(unit, probe=False, repo=None):
         has_req = bool(re.search(r"\brequires\b", b.clauses))
         opts = {
             "ret": b.ret, "clauses": b.clauses.rstrip("\n"), "loops": {k: v.rstrip("\n") for k, v in b.loops.items()},
+            "closures": {k: tuple(v) for k, v in b.closures.items()},
             "hints": [tuple(h[:2]) + (h[2].rstrip("\n"), h[3]) for h in b.hints],
             "body_first": b.first.rstrip("\n"), "subst": b.subst,
             "keep_pub": "keep_pub" in b.flags, "drop_derive": "drop_derive" in b.flags,
